@@ -16,6 +16,8 @@ import glob
 import itertools
 import json
 import os
+import random
+import time
 from fractions import Fraction
 
 import numpy as np
@@ -94,6 +96,139 @@ class ScriptedDist:
         v = [self.rng.randint(-16, 16) / 8.0 for _ in range(size)]
         self.log.append(v)
         return np.array(v)
+
+
+# ----------------------------------------------------------------------------
+# argument forms, aliasing, findings
+
+INT_FORMS = [int, np.int8, np.int16, np.int32, np.int64, np.uint8, np.uint16, np.uint32, np.uint64, np.intp,
+             lambda v: np.array(v)]           # last: 0-d array
+
+
+def vint(rng, v, plain=0.4, zero_d=False):
+    """the integer v as a Python int or a NumPy integer scalar of any width.  0-d arrays are not accepted as
+    integers by this code (`[None] * ts_length`, `[num_actions] * N` and `isinstance(x, numbers.Integral)` need an
+    object with list-repeat / Integral semantics), so they are only produced on request"""
+    if rng.random() < plain:
+        return int(v)
+    f = rng.choice(INT_FORMS if zero_d else INT_FORMS[:-1])
+    try:
+        return f(v)
+    except OverflowError:          # value does not fit the drawn width
+        return np.int64(v)
+
+
+def vfloat(rng, v, plain=0.4):
+    """the float v as Python float / np.float64 / 0-d array, np.float32 when v is exactly representable,
+    Python int / bool when v is integral"""
+    forms = [float, np.float64, lambda x: np.array(float(x))]
+    if float(np.float32(v)) == float(v):
+        forms.append(np.float32)
+    if float(v) == int(v):
+        forms.append(int)
+        if int(v) in (0, 1):
+            forms.append(bool)
+    return float(v) if rng.random() < plain else rng.choice(forms)(v)
+
+
+def varr1(rng, v, dtypes, plain=0.4):
+    """a 1-d sequence as list / tuple / ndarray of several dtypes / strided view / reversed view"""
+    v = list(v)
+    if rng.random() < plain:
+        return list(v), None
+    kind = rng.randrange(5)
+    if kind == 0:
+        return tuple(v), None
+    dt = rng.choice(dtypes)
+    if kind == 1 or len(v) == 0:
+        return np.array(v, dtype=dt), None
+    if kind == 2:       # strided view into a larger base (the base's other entries must never change)
+        base = np.full(2 * len(v), 77, dtype=dt)
+        base[::2] = v
+        return base[::2], base
+    if kind == 3:       # reversed view
+        base = np.array(v[::-1], dtype=dt)
+        return base[::-1], base
+    return np.array(v, dtype=dt), None
+
+
+def varr2(rng, m, dtypes, plain=0.4):
+    """a matrix as list of lists / tuple of tuples / ndarray (C, F, transposed view, strided view, dtypes)"""
+    m = [list(r) for r in m]
+    if rng.random() < plain:
+        return m
+    kind = rng.randrange(6)
+    if kind == 0:
+        return tuple(tuple(r) for r in m)
+    dt = rng.choice(dtypes)
+    a = np.array(m, dtype=dt)
+    if kind == 1:
+        return a
+    if kind == 2:
+        return np.asfortranarray(a)
+    if kind == 3:
+        return np.ascontiguousarray(a.T).T          # transposed view
+    if kind == 4:
+        base = np.full((2 * a.shape[0], 2 * a.shape[1]), 55, dtype=dt)
+        base[::2, ::2] = a
+        return base[::2, ::2]
+    return a[::-1, ::-1][::-1, ::-1]               # doubly reversed view (negative strides composed)
+
+
+def vsparse(rng, m):
+    """an adjacency matrix as csr / csc / coo / lil with int32 or int64 index arrays and explicitly stored zeros"""
+    from scipy import sparse
+    a = np.array(m, dtype=float)
+    n = a.shape[0]
+    rows, cols, data = [], [], []
+    for i in range(n):
+        for j in range(n):
+            if a[i, j] != 0 or rng.random() < 0.3:        # explicit zeros are stored
+                rows.append(i); cols.append(j); data.append(a[i, j])
+    idt = rng.choice([np.int32, np.int64])
+    coo = sparse.coo_matrix((np.array(data, dtype=float), (np.array(rows, dtype=idt), np.array(cols, dtype=idt))),
+                            shape=(n, n))
+    fmt = rng.choice(["csr", "csc", "coo", "lil"])
+    if fmt == "coo":
+        return coo, fmt
+    if fmt == "lil":
+        return sparse.lil_matrix(a), fmt
+    x = sparse.csr_matrix((coo.data, (coo.row, coo.col)), shape=(n, n)) if fmt == "csr" else \
+        sparse.csc_matrix((coo.data, (coo.row, coo.col)), shape=(n, n))
+    x.indices = x.indices.astype(idt)
+    x.indptr = x.indptr.astype(idt)
+    return x, fmt
+
+
+def snap(x):
+    """bit-exact snapshot of an argument (for 'inputs unchanged' checks)"""
+    from scipy import sparse
+    if isinstance(x, np.ndarray):
+        return ("nd", x.dtype.str, x.shape, x.tobytes())
+    if sparse.issparse(x):
+        c = x.tocoo()
+        return ("sp", x.format, c.row.tobytes(), c.col.tobytes(), c.data.tobytes())
+    if isinstance(x, (list, tuple)):
+        return (type(x).__name__,) + tuple(snap(e) for e in x)
+    return ("v", repr(x))
+
+
+def shares(a, bs):
+    return isinstance(a, np.ndarray) and any(isinstance(b, np.ndarray) and np.shares_memory(a, b) for b in bs)
+
+
+def finding(ctx, key, what, replay):
+    """a defect of the clean code found by the hardening streams: counted (`unlisted-finding:<key>`) with one
+    example kept in the evidence until the key is listed in known_findings.txt; then it goes through spec_fail"""
+    if key in ctx.known:
+        ctx.spec_fail(key, what, replay)
+        return
+    ctx.count("unlisted-finding:" + key)
+    ctx.extra.setdefault("unlisted_findings", {}).setdefault(key, {"what": what, "replay": replay})
+
+
+INT_DT = [np.int8, np.int16, np.int32, np.int64, np.uint8, np.uint16, np.uint32, np.uint64, np.float32, np.float64]
+PAY_DT = [np.int8, np.int16, np.int32, np.int64, np.float32, np.float64]
 
 
 class ReplayDist:
@@ -186,7 +321,7 @@ def brd_family(ctx, cases, n_cases):
             ri = [rng.randrange(12) for _ in range(T)] if rng.random() < 0.5 else None
         init_none = (not malformed) and rng.random() < 0.15
         tol_opt = rng.choice([None, None, None, 0.0, 0.5, 1.0, 2.0])
-        brd_case(ctx, cases, {"tol": tol_opt, "kind": kind, "A": A, "N": N, "T": T, "tie_breaking": tb, "eps": eps, "k": k, "d0": d0,
+        brd_case(ctx, cases, {"forms": (not malformed) and rng.random() < 0.5, "tol": tol_opt, "kind": kind, "A": A, "N": N, "T": T, "tie_breaking": tb, "eps": eps, "k": k, "d0": d0,
                               "malformed": malformed, "ps": ps, "us": us, "ri": ri, "seed": rng.randrange(2 ** 31),
                               "init_none": init_none})
     # equal seeds give equal histories
@@ -237,15 +372,40 @@ def brd_case(ctx, cases, P):
     rec = Rec(P["seed"], ps=P.get("ps"), us=P.get("us"), ri=P.get("ri"))
     ctx.count("brd:players-injected" if P.get("ps") is not None else "brd:players-recorded")
     for _once in (0,):
-        obj = {"brd": lambda: BRD(A, N), "kmr": lambda: KMR(A, N, epsilon=eps),
-               "sbrd": lambda: SamplingBRD(A, N, k=k)}[kind]()
+        forms = bool(P.get("forms"))
+        frng = random.Random(P["seed"] ^ 0x5F5F)
+        A_f, N_f, eps_f, k_f, T_f, base = A, N, eps, k, T, None
         arr = np.array(d0, dtype=int)
+        if forms:
+            ctx.count("forms:brd-family")
+            A_f, N_f, T_f = varr2(frng, A, PAY_DT), vint(frng, N), vint(frng, T)
+            eps_f, k_f = vfloat(frng, eps), vint(frng, k)
+            if isinstance(eps_f, np.float32) and kind == "kmr" and \
+                    any(bool(u_ < eps_f) != (u_ < eps) for u_ in (P.get("us") or [])):
+                # NEP 50: `random() < np.float32(eps)` is evaluated in float32, so a uniform just below eps is rounded
+                # up to eps and the mutation does not happen
+                u_bad = [u_ for u_ in P["us"] if bool(u_ < eps_f) != (u_ < eps)][0]
+                finding(ctx, "kmr_float32_epsilon", "KMR(epsilon=np.float32(%r)): the coin u=%r (< epsilon) does not mutate "
+                        "because `u < epsilon` is evaluated in float32" % (eps, u_bad),
+                        {"op": "kmr", "A": A, "N": N, "epsilon": "np.float32(%r)" % eps, "u": u_bad})
+                eps_f = float(eps)
+            arr, base = varr1(frng, d0, INT_DT, plain=0.15)
+        obj = P.get("obj") or {"brd": lambda: BRD(A_f, N_f), "kmr": lambda: KMR(A_f, N_f, epsilon=eps_f),
+                                "sbrd": lambda: SamplingBRD(A_f, N_f, k=k_f)}[kind]()
+        tbkw = {} if P.get("omit_tie_breaking") else {"tie_breaking": tb}
+        if forms and frng.random() < 0.3:
+            obj.tie_breaking = tb          # attribute instead of option (the documented default mechanism)
+            tbkw = {}
+            ctx.count("forms:tie_breaking-by-attribute")
+        snapA = snap(A_f)
+        nofinal = init_none or not isinstance(arr, np.ndarray)
         init_acts = None
+        P["_out"] = None
         try:
             if init_none:
                 # random initial condition drawn by the code itself: N scalar randint(n) draws, then
                 # `_set_action_dist`; the caller's array does not exist, the final state is not observable
-                out = obj.time_series(T, tie_breaking=tb, random_state=rec, **kw)
+                out = obj.time_series(T_f, random_state=rec, **tbkw, **kw)
                 init_acts, rec.log_ri = rec.log_ri[:N], rec.log_ri[N:]
                 d0 = [init_acts.count(c) for c in range(n)]
                 rows = [[int(v) for v in r] for r in out]
@@ -253,10 +413,14 @@ def brd_case(ctx, cases, P):
                 impl = "%s|1" % intm(rows)
                 ctx.count("brd:init-drawn-by-the-code")
             else:
-                out = obj.time_series(T, init_action_dist=arr, tie_breaking=tb, random_state=rec, **kw)
+                out = obj.time_series(T_f, init_action_dist=arr, random_state=rec, **tbkw, **kw)
                 rows = [[int(v) for v in r] for r in out]
-                final = [int(v) for v in arr]
-                impl = "%s|%s|1" % (intm(rows), ints(final))
+                if nofinal:      # list / tuple input: np.asarray made a private copy, the final state is not observable
+                    final = None
+                    impl = "%s|1" % intm(rows)
+                else:
+                    final = [int(v) for v in arr]
+                    impl = "%s|%s|1" % (intm(rows), ints(final))
             err = None
         except IndexError:
             impl, err, rows, final = "ERR:IndexError", "IndexError", None, None
@@ -267,6 +431,7 @@ def brd_case(ctx, cases, P):
                            "player_ind_seq": rec.log_ps[0] if rec.log_ps else None, "uniforms": rec.log_us,
                            "randint_scalars": rec.log_ri})
             continue
+        P["_out"] = out if err is None else None
         ps_used = rec.log_ps[0] if rec.log_ps else []
         us_used = rec.log_us
         line = ("C20 brd mode=rat kind=%s A=%s tol=%s rnd=%d d0=%s ps=%s ri=%s eps=%s us=%s samples=%s"
@@ -279,13 +444,25 @@ def brd_case(ctx, cases, P):
                   "player_ind_seq": ps_used, "uniforms": us_used, "randint_scalars": rec.log_ri,
                   "samples": rec.log_samples, "out": rows, "final": final, "init_actions": init_acts}
         if final is not None and final != d0:
-            ctx.count("brd:caller-init-array-overwritten(observation)")
+            finding(ctx, "brd_time_series_overwrites_init",
+                    "%s.time_series overwrote the caller's init_action_dist ndarray (%s -> %s); undocumented in-place "
+                    "use of the input" % (kind, d0, final), replay)
+        if err is None:
+            if snap(A_f) != snapA:
+                ctx.spec_fail("brd_input_modified", "the payoff matrix argument was modified", replay)
+            if not isinstance(arr, np.ndarray) and list(arr) != list(P["d0"]) and not init_none:
+                ctx.spec_fail("brd_input_modified", "the list/tuple init_action_dist was modified", replay)
+            if base is not None and base.shape[0] == 2 * len(d0) and not (base[1::2] == 77).all():
+                ctx.spec_fail("brd_input_modified", "entries of the base array outside the strided view changed", replay)
+            if shares(out, [arr, base, A_f, obj.player.payoff_array]):
+                ctx.spec_fail("brd_alias", "the returned time series shares memory with an input / the object's arrays", replay)
         nontriv = err is None and n >= 2 and T >= 2 and any(r != rows[0] for r in rows + ([final] if final else []))
-        if init_none:
+        if nofinal:
             def cmp_nofinal(mo, im):
                 parts = mo.split("|")
                 return None if len(parts) == 3 and parts[0] + "|" + parts[2] == im else "trajectory differs"
-            cases.append(Case(line, impl, nontrivial=nontriv, cmp=cmp_nofinal, tag=kind + ":init-none"))
+            cases.append(Case(line, impl, nontrivial=nontriv, cmp=cmp_nofinal,
+                              tag=kind + (":init-none" if init_none else ":init-list")))
         else:
             cases.append(Case(line, impl, nontrivial=nontriv, tag=kind))
         ctx.count("brd:ties-drawn", len(rec.log_ri))
@@ -551,12 +728,47 @@ def fp_family(ctx, cases, n_cases):
         else:
             init = (np.array(x0), np.array(x1))
         rec = Rec(rng.randrange(2 ** 31), ri=[rng.randrange(12) for _ in range(2 * T)] if rng.random() < 0.5 else None)
+        forms = rng.random() < 0.5
+        T_arg, tinit_arg, fins = T, t_init, []
+        if forms:
+            ctx.count("forms:fp")
+            A0f = varr2(rng, A0, PAY_DT)
+            A1f = A0f
+            if not sym:      # documented: the players' payoff dtypes must coincide
+                dt = rng.choice(PAY_DT)
+                A0f, A1f = varr2(rng, A0, [dt], plain=0.0), varr2(rng, A1, [dt], plain=0.0)
+                A0f = A0f if isinstance(A0f, np.ndarray) else np.array(A0, dtype=dt)
+                A1f = A1f if isinstance(A1f, np.ndarray) else np.array(A1, dtype=dt)
+            if sym and isinstance(A0f, tuple):      # (a tuple is read as a tuple of Players by NormalFormGame)
+                A0f = [list(r) for r in A0f]
+            g = NormalFormGame(A0f) if sym else NormalFormGame((Player(A0f), Player(A1f)))
+            gain = None if gain is None else vfloat(rng, gain)
+            T_arg, tinit_arg = vint(rng, T), vint(rng, t_init)
+            if isinstance(tinit_arg, np.uint64):     # (uint64 + int64 promotes to float64 in NumPy: not usable as a period)
+                tinit_arg = np.uint32(t_init)
+            if isinstance(tinit_arg, np.integer) and t_init + T + 2 > np.iinfo(type(tinit_arg)).max:
+                # `t_init + j - 1`, `t_init + num_reps` and `t + 2` are evaluated in the width of t_init: OverflowError
+                # or a silently wrapped period index (negative step size / empty range)
+                finding(ctx, "fp_narrow_int_t_init", "FictitiousPlay with t_init=%s(%d) and %d periods: period arithmetic "
+                        "overflows the integer width of t_init" % (type(tinit_arg).__name__, t_init, T),
+                        {"op": "fp", "t_init": "%s(%d)" % (type(tinit_arg).__name__, t_init), "ts_length": T})
+                tinit_arg = int(t_init)
+            if pure:
+                init = rng.choice([tuple, list])([vint(rng, a0, plain=0.2), vint(rng, a1, plain=0.2)])
+            else:
+                def xf(x):
+                    dts = [np.float64] + ([np.float32] if all(float(np.float32(v)) == v for v in x) else [])
+                    return varr1(rng, x, dts)[0]
+                init = rng.choice([tuple, list])([xf(x0), xf(x1)])
+            fins = [A0f, A1f, init]
         if sfp:
             dist = ScriptedDist(rng)
             obj = StochasticFictitiousPlay(g, distribution=dist, gain=gain)
         else:
             dist = None
             obj = FictitiousPlay(g, gain=gain)
+        gain = None if gain is None else float(gain)
+        fsnaps = [snap(x) for x in fins]
         use_play = rng.random() < 0.3
         init_none = (not use_play) and rng.random() < 0.15
         if init_none:
@@ -564,11 +776,22 @@ def fp_family(ctx, cases, n_cases):
             ctx.count("fp:init-drawn-by-the-code")
         try:
             if use_play:
-                fin = obj.play(actions=init, num_reps=T - 1, t_init=t_init, tie_breaking=tb, random_state=rec)
+                nr = vint(rng, T - 1) if forms else T - 1
+                nr = np.uint32(T - 1) if isinstance(nr, np.uint64) else nr
+                if isinstance(nr, np.integer) and t_init + T + 2 > np.iinfo(type(nr)).max:
+                    nr = T - 1          # (same width problem through `t_init + num_reps`)
+                fin = obj.play(actions=init, num_reps=nr, t_init=tinit_arg,
+                               tie_breaking=tb, random_state=rec)
                 out = ([fin[0]], [fin[1]])
                 ctx.count("fp:play()")
             else:
-                out = obj.time_series(T, init_actions=init, t_init=t_init, tie_breaking=tb, random_state=rec)
+                out = obj.time_series(T_arg, init_actions=init, t_init=tinit_arg, tie_breaking=tb, random_state=rec)
+            if [snap(x) for x in fins] != fsnaps:
+                ctx.spec_fail("fp_input_modified", "an argument (payoffs / initial actions) was modified",
+                              {"op": "fp", "A0": A0, "A1": A1, "x0": x0, "x1": x1})
+            if init is not None and any(shares(np.asarray(o), [x for x in init if isinstance(x, np.ndarray)])
+                                        for o in out if isinstance(o, np.ndarray)):
+                ctx.spec_fail("fp_alias", "a returned belief array shares memory with an input", {"op": "fp", "A0": A0})
         except Exception as e:
             ctx.spec_fail("fp_exception", "time_series/play raised %s: %s" % (type(e).__name__, e),
                           {"op": "sfp" if sfp else "fp", "A0": A0, "A1": A1, "gain": gain, "T": T, "t_init": t_init,
@@ -799,21 +1022,32 @@ def fpn_family(ctx, cases, n_cases):
 # ----------------------------------------------------------------------------
 # LocalInteraction
 
-def li_reach(A, adj, n, start, revs_list, rnd, tol, cap=20000):
+def li_reach(A, adj, n, start, revs_list, rnd, tol, cap=600):
     """the literal definition, period by period: the set of profiles reachable from the profiles in `start`
     when, in every period, each player of the revising list best-responds (row i of the adjacency, profile at
     the START of the period, documented tie rule: smallest index / any best response) — exact Fractions.
     Returns None if the set grows beyond `cap` (random tie-breaking on long runs)."""
     N = len(adj)
+    adjF = [[F(w) for w in row] for row in adj]
+    AF = [[F(v) for v in row] for row in A]
+    tolF = Fraction(tol)
+    memo = {}
+
+    def br(i, prof):
+        key = (i, prof)
+        if key not in memo:
+            cnt = [sum(adjF[i][j] for j in range(N) if prof[j] == c) for c in range(n)]
+            S = br_set_exact([sum(a * b for a, b in zip(row, cnt)) for row in AF], tolF)
+            memo[key] = S if rnd else S[:1]
+        return memo[key]
+
     cur = set(tuple(p) for p in start)
     for rv in revs_list:
         nxt = set()
         for prof in cur:
             choices = []
             for i in rv:
-                cnt = [sum(F(adj[i][j]) for j in range(N) if prof[j] == c) for c in range(n)]
-                S = br_set_exact(matvec(A, cnt), Fraction(tol))
-                choices.append(S if rnd else S[:1])
+                choices.append(br(i, prof))
             for combo in itertools.product(*choices):
                 new = list(prof)
                 for i, b in zip(rv, combo):
@@ -889,28 +1123,65 @@ def li_family(ctx, cases, n_cases):
             T = len(seq) + 1
         ctx.count("li:" + mode)
         acts_arg = None if init_none else tuple(acts)
+        forms = fixed is None and rng.random() < 0.5
+        T_f, seq_f, ins, omit_tb = T, seq, [], False
+        if forms:
+            ctx.count("forms:li")
+            A_f = varr2(rng, A, PAY_DT)
+            if rng.random() < 0.5:
+                adj_f, fmt = vsparse(rng, adj)
+                ctx.count("forms:li-adj-" + fmt)
+            else:
+                adj_f = varr2(rng, adj, [np.float32, np.float64])
+                if isinstance(adj_f, tuple):       # scipy reads a tuple as (data, indices): not an accepted form
+                    adj_f = [list(r) for r in adj_f]
+            li = LocalInteraction(A_f, adj_f)
+            T_f = vint(rng, T)
+            if not init_none:
+                acts_arg = varr1(rng, acts, [np.int8, np.int32, np.int64, np.uint8, np.intp])[0]
+                if isinstance(acts_arg, list) and rng.random() < 0.5:
+                    acts_arg = [vint(rng, a_, plain=0.0) for a_ in acts]
+            if seq is not None:
+                # (a 0-d array is not a numbers.Integral: as an entry of player_ind_seq it is not an accepted form)
+                conv = lambda e: vint(rng, e, plain=0.3, zero_d=False) if isinstance(e, int) else \
+                    varr1(rng, e, [np.int32, np.int64, np.intp, np.uint8])[0]
+                seq_f = [conv(e) for e in seq]
+                # (a tuple entry is read by scipy's indexing as a (row, col) index: not an accepted form for a set)
+                seq_f = [list(e) if isinstance(e, tuple) else e for e in seq_f]
+                if all(isinstance(e, int) for e in seq) and rng.random() < 0.5:
+                    seq_f = rng.choice([tuple(seq), np.array(seq), np.array(seq, dtype=np.uint8), np.array(seq[::-1])[::-1]])
+            if rng.random() < 0.3:
+                li.tie_breaking = tb
+                omit_tb = True
+            ins = [A_f, adj_f, acts_arg, seq_f]
+        kw = dict(kw) if omit_tb else dict(kw, tie_breaking=tb)
+        snaps = [snap(x) for x in ins]
         try:
             if mode == "sim":
-                out = li.time_series(T, revision="simultaneous", actions=acts_arg, tie_breaking=tb, random_state=rec, **kw)
+                out = li.time_series(T_f, revision="simultaneous", actions=acts_arg, random_state=rec, **kw)
             elif mode == "async-inject":
-                out = li.time_series(T, revision="asynchronous", actions=acts_arg, player_ind_seq=seq,
-                                     tie_breaking=tb, random_state=rec, **kw)
+                out = li.time_series(T_f, revision="asynchronous", actions=acts_arg, player_ind_seq=seq_f,
+                                     random_state=rec, **kw)
             elif mode == "async-record":
-                out = li.time_series(T, revision="asynchronous", actions=acts_arg, tie_breaking=tb, random_state=rec, **kw)
+                out = li.time_series(T_f, "asynchronous", actions=acts_arg, random_state=rec, **kw)
             elif mode == "play-sim":
-                out = li.play(revision="simultaneous", actions=acts_arg, num_reps=min(T, 12) - 1, tie_breaking=tb,
-                              random_state=rec, **kw)
+                out = li.play(revision="simultaneous", actions=acts_arg,
+                              num_reps=vint(rng, min(T, 12) - 1) if forms else min(T, 12) - 1, random_state=rec, **kw)
             elif mode == "ts-nested":
-                out = li.time_series(T, revision="asynchronous", actions=acts_arg, player_ind_seq=seq,
-                                     tie_breaking=tb, random_state=rec, **kw)
+                out = li.time_series(T_f, revision="asynchronous", actions=acts_arg, player_ind_seq=seq_f,
+                                     random_state=rec, **kw)
             else:
-                out = li.play(revision="asynchronous", actions=acts_arg, player_ind_seq=seq, tie_breaking=tb,
-                              random_state=rec, **kw)
+                out = li.play("asynchronous", acts_arg, seq_f, random_state=rec, **kw)
         except Exception as e:
             ctx.spec_fail("li_exception", "LocalInteraction %s raised %s: %s" % (mode, type(e).__name__, e),
                           {"op": "li:" + mode, "A": A, "adj": adj, "actions": acts, "player_ind_seq": seq,
                            "tie_breaking": tb, "T": T})
             continue
+        if [snap(x) for x in ins] != snaps:
+            ctx.spec_fail("li_input_modified", "an argument (payoffs / adjacency / actions / player_ind_seq) was modified",
+                          {"op": "li:" + mode, "A": A, "adj": adj, "actions": acts, "player_ind_seq": seq})
+        if shares(out, [x for x in ins if isinstance(x, np.ndarray)]):
+            ctx.spec_fail("li_alias", "the result shares memory with an input", {"op": "li:" + mode, "A": A, "adj": adj})
         if init_none:     # the code drew the initial profile itself: N scalar randint(n) draws come first
             acts, rec.log_ri = rec.log_ri[:N], rec.log_ri[N:]
             ctx.count("li:init-drawn-by-the-code")
@@ -977,16 +1248,14 @@ def li_family(ctx, cases, n_cases):
                 try:
                     cur = tuple(acts)
                     for rv in revs:
-                        cur = li.play(revision="asynchronous", actions=cur, player_ind_seq=[list(rv)],
-                                      tie_breaking=tb, **kw)
+                        cur = li.play(revision="asynchronous", actions=cur, player_ind_seq=[list(rv)], **kw)
                     comp = [int(v) for v in cur]
                     ts = None
                     if all(len(rv) == 1 for rv in revs):
                         ts = li.time_series(len(revs) + 1, revision="asynchronous", actions=tuple(acts),
-                                            player_ind_seq=[rv[0] for rv in revs], tie_breaking=tb, **kw)
+                                            player_ind_seq=[rv[0] for rv in revs], **kw)
                     elif mode == "play-sim":
-                        ts = li.time_series(len(revs) + 1, revision="simultaneous", actions=tuple(acts),
-                                            tie_breaking=tb, **kw)
+                        ts = li.time_series(len(revs) + 1, revision="simultaneous", actions=tuple(acts), **kw)
                     ctx.count("li:play-vs-composition-checks")
                     if comp != final or (ts is not None and [int(v) for v in ts[-1]] != final):
                         ctx.spec_fail("li_play_composition",
@@ -1067,7 +1336,8 @@ def logit_family(ctx, cases, n_cases):
             g = NormalFormGame(arr)
         beta = rng.choice([0.0, 0.5, 1.0, 2.0, 30.0, 400.0])
         before = [np.array(p.payoff_array, copy=True) for p in g.players]
-        ld = LogitDynamics(g, beta=beta)
+        lforms = rng.random() < 0.5
+        ld = LogitDynamics(g, beta=vfloat(rng, beta)) if lforms else LogitDynamics(g, beta=beta)
         if any(not np.array_equal(b, p.payoff_array) for b, p in zip(before, g.players)):
             ctx.spec_fail("logit_payoffs_modified", "LogitDynamics changed the game's payoffs", {"nums": nums, "beta": beta})
         tabs = [np.asarray(c).reshape(-1, nums[i]) for i, c in enumerate(ld.logit_choice_cdfs())]
@@ -1094,11 +1364,28 @@ def logit_family(ctx, cases, n_cases):
         seq = [rng.randrange(Np) for _ in range(T)] if use_play else None
         init_none = rng.random() < 0.15
         acts_arg = None if init_none else tuple(acts)
+        seq_f, T_f = seq, T
+        if lforms:
+            ctx.count("forms:logit")
+            T_f = vint(rng, T)
+            if not init_none:
+                acts_arg = varr1(rng, acts, [np.int8, np.int32, np.int64, np.uint8, np.intp])[0]
+                if isinstance(acts_arg, list) and rng.random() < 0.5:
+                    acts_arg = [vint(rng, a_, plain=0.0) for a_ in acts]
+            if seq is not None:
+                seq_f = rng.choice([list(seq), tuple(seq), np.array(seq), np.array(seq, dtype=np.uint8),
+                                    np.array(seq[::-1])[::-1], [vint(rng, e, plain=0.0) for e in seq]])
+        lsn = [snap(acts_arg), snap(seq_f)]
         try:
             if use_play:
-                out = ld.play(init_actions=acts_arg, player_ind_seq=seq, random_state=rec)
+                out = ld.play(acts_arg, seq_f, random_state=rec) if lforms else \
+                    ld.play(init_actions=acts_arg, player_ind_seq=seq, random_state=rec)
             else:
-                out = ld.time_series(T, init_actions=acts_arg, random_state=rec)
+                out = ld.time_series(T_f, init_actions=acts_arg, random_state=rec)
+            if [snap(acts_arg), snap(seq_f)] != lsn:
+                ctx.spec_fail("logit_input_modified", "init_actions / player_ind_seq was modified", {"nums": nums})
+            if shares(out if isinstance(out, np.ndarray) else None, [acts_arg, seq_f]):
+                ctx.spec_fail("logit_alias", "the result shares memory with an input", {"nums": nums})
         except Exception as e:
             ctx.spec_fail("logit_exception", "LogitDynamics raised %s: %s" % (type(e).__name__, e),
                           {"op": "logit", "nums": nums, "beta": beta, "actions": acts, "player_ind_seq": seq or ps,
@@ -1253,6 +1540,205 @@ def determinism_family(ctx, n_cases):
                     ctx.spec_fail("%s_state" % name.split("-")[0], "invalid state along a seeded history (%s)" % flavour, rp)
 
 
+# ----------------------------------------------------------------------------
+# histories on one object: repeated / interleaved calls, attribute reassignment and in-place edits of the
+# object's arrays between calls, reused output buffers; every earlier result is kept and re-judged
+
+def _arrays(r):
+    if isinstance(r, np.ndarray):
+        return [r]
+    if isinstance(r, (list, tuple)):
+        return [a for e in r for a in _arrays(e)]
+    return []
+
+
+def _keep(ctx, kept, r, key, replay):
+    """re-judge every earlier result (bitwise unchanged), check the new one does not alias them, keep it"""
+    for old, sn in kept:
+        if snap(old) != sn:
+            ctx.spec_fail(key + "_earlier_result_changed", "a result returned earlier changed after a later call", replay)
+        if any(shares(a, _arrays(old)) for a in _arrays(r)):
+            ctx.spec_fail(key + "_alias", "a result shares memory with a result returned earlier", replay)
+    kept.append((r, snap(r)))
+    ctx.count("history:results-kept-and-rejudged")
+
+
+def history_family(ctx, cases, n_cases):
+    from quantecon.game_theory import (BRD, KMR, SamplingBRD, FictitiousPlay, StochasticFictitiousPlay,
+                                       LocalInteraction, LogitDynamics, NormalFormGame)
+    from scipy import sparse
+    rng = ctx.rng
+    for ci in range(n_cases):
+        which = ("brd", "li", "fp", "logit")[ci % 4]
+        ctx.count("history:" + which)
+        kept = []
+        if which == "brd":
+            # one BRD/KMR/SamplingBRD object; between calls: epsilon / k / tie_breaking / N reassigned, payoff entries
+            # edited in place; every call goes through the full oracle + correspondence of brd_case
+            kind = rng.choice(["brd", "kmr", "sbrd"])
+            n, N = rng.randint(2, 4), rng.randint(2, 8)
+            A = np.array(rand_payoff(rng, n))
+            eps, k, tb = rng.choice([0.0, 0.25, 1.0]), rng.choice([1, 2, 3]), rng.choice(["smallest", "random"])
+            obj = {"brd": lambda: BRD(A, N), "kmr": lambda: KMR(A, N, epsilon=eps), "sbrd": lambda: SamplingBRD(A, N, k=k)}[kind]()
+            obj.tie_breaking = tb
+            for step in range(rng.randint(3, 6)):
+                m = rng.choice({"kmr": [0, 0, 0, 2, 3, 4, 5], "sbrd": [1, 1, 1, 2, 3, 4, 5], "brd": [2, 3, 4, 4, 5]}[kind]) \
+                    if step > 0 else 5
+                if m == 0 and kind == "kmr":
+                    eps = rng.choice([0.0, 0.1, 0.5, 1.0]); obj.epsilon = eps; ctx.count("history:set-epsilon")
+                elif m == 1 and kind == "sbrd":
+                    k = rng.choice([1, 2, 4]); obj.k = k; ctx.count("history:set-k")
+                elif m == 2:
+                    tb = rng.choice(["smallest", "random"]); obj.tie_breaking = tb; ctx.count("history:set-tie_breaking")
+                elif m == 3:
+                    N = rng.randint(2, 8); obj.N = N; ctx.count("history:set-N")
+                elif m == 4:
+                    i, j, v = rng.randrange(n), rng.randrange(n), rng.randint(-3, 4)
+                    obj.player.payoff_array[i, j] = v      # in-place edit of the object's own array
+                    ctx.count("history:payoff-edited-in-place")
+                Acur = [[int(v) for v in r] for r in obj.player.payoff_array]
+                T = rng.choice([1, 3, 8, 20])
+                P = {"kind": kind, "A": Acur, "N": N, "T": T, "tie_breaking": tb, "eps": eps, "k": k,
+                     "d0": composition(rng, N, n), "seed": rng.randrange(2 ** 31), "obj": obj, "omit_tie_breaking": True,
+                     "ps": [rng.randrange(N) for _ in range(T)] if rng.random() < 0.5 else None}
+                brd_case(ctx, cases, P)
+                if P.get("_out") is not None:
+                    _keep(ctx, kept, P["_out"], "brd_history", {"op": kind, "A": Acur, "N": N, "step": step})
+        elif which == "li":
+            n, N = rng.randint(2, 3), rng.randint(3, 6)
+            A = rand_payoff(rng, n, kind=rng.choice([0, 2, 4]))
+            adj = [[(rng.choice([0.5, 1.0, 2.0]) if i != j and rng.random() < 0.7 else 0.0) for j in range(N)] for i in range(N)]
+            li = LocalInteraction(A, sparse.csr_matrix(np.array(adj)))
+            tb = "smallest"
+            acts = [rng.randrange(n) for _ in range(N)]
+            for step in range(rng.randint(3, 6)):
+                m = rng.randrange(4)
+                if m == 0 and li.adj_matrix.nnz:
+                    q = rng.randrange(li.adj_matrix.nnz)       # in-place edit of a stored weight
+                    w = rng.choice([0.25, 0.5, 1.0, 3.0])
+                    li.adj_matrix.data[q] = w
+                    adj = li.adj_matrix.toarray().tolist()
+                    ctx.count("history:adjacency-edited-in-place")
+                elif m == 1:
+                    tb = rng.choice(["smallest", "random"]); li.tie_breaking = tb; ctx.count("history:set-tie_breaking")
+                rnd = tb == "random"
+                replay = {"op": "li-history", "A": A, "adj": adj, "actions": acts, "tie_breaking": tb, "step": step}
+                if rng.random() < 0.5:
+                    seq = [rng.randrange(N) if rng.random() < 0.6 else rng.sample(range(N), rng.randint(1, N))
+                           for _ in range(rng.randint(2, 6))]
+                    revs = [[e] if isinstance(e, int) else list(e) for e in seq]
+                    r = li.play(revision="asynchronous", actions=tuple(acts), player_ind_seq=seq, random_state=Rec(step))
+                    got = [[int(v) for v in r]]
+                    per = [revs]
+                else:
+                    T = rng.randint(2, 6)
+                    sim = rng.random() < 0.5
+                    seq = [rng.randrange(N) for _ in range(T)]
+                    r = li.time_series(T, revision="simultaneous" if sim else "asynchronous", actions=tuple(acts),
+                                       player_ind_seq=None if sim else seq, random_state=Rec(step))
+                    got = [[int(v) for v in row] for row in r]
+                    per = [[list(range(N))] if sim else [[seq[t]]] for t in range(T - 1)]
+                    if got[0] != acts:
+                        ctx.spec_fail("li_transition", "first row is not the initial profile", replay)
+                    got, per = got, per
+                # definition, period by period, with the CURRENT adjacency and tie rule
+                chain = [acts] + got if len(got) == 1 else got
+                for t in range(len(chain) - 1):
+                    reach = li_reach(A, adj, n, [chain[t]], per[t], rnd, TOL)
+                    if reach is not None and tuple(chain[t + 1]) not in reach:
+                        ctx.spec_fail("li_history_transition", "after in-place edits / earlier calls on the same object: %s -> %s "
+                                      "is not allowed by the definition with the current adjacency" % (chain[t], chain[t + 1]), replay)
+                        break
+                _keep(ctx, kept, r if isinstance(r, np.ndarray) else list(r), "li_history", replay)
+                acts = [int(v) for v in chain[-1]]
+        elif which == "fp":
+            n = rng.randint(2, 4)
+            A = rand_payoff(rng, n)
+            gain = rng.choice([None, 0.5, 0.25])
+            sfp = rng.random() < 0.3
+            tb = rng.choice(["smallest", "random"])
+            mk = lambda: (StochasticFictitiousPlay(NormalFormGame(A), distribution=ReplayDist(pl), gain=gain) if sfp
+                          else FictitiousPlay(NormalFormGame(A), gain=gain))
+            pl = []
+            obj = mk()
+            bufs = (np.empty(n), np.empty(n))
+            cur = (np.array(simplex_point(rng, n)), np.array(simplex_point(rng, n)))
+            for step in range(rng.randint(3, 6)):
+                reps, t0 = rng.randint(1, 5), rng.choice([0, 2, 7])
+                perts = [[rng.randint(-8, 8) / 8.0 for _ in range(n)] for _ in range(2 * max(reps, 5))]
+                use_ts, use_out = rng.random() < 0.4, rng.random() < 0.4
+                ri = [rng.randrange(12) for _ in range(12)]
+                replay = {"op": "fp-history", "A": A, "gain": gain, "step": step, "num_reps": reps, "t_init": t0,
+                          "actions": [c.tolist() for c in cur], "tie_breaking": tb, "out_buffers": use_out}
+
+                def call(o, out=None):
+                    if sfp:
+                        o.payoff_perturbation_dist = lambda size, random_state, q=[list(v) for v in perts]: np.array(q.pop(0))
+                    if use_ts:
+                        return o.time_series(reps + 1, init_actions=cur, t_init=t0, tie_breaking=tb, random_state=Rec(7, ri=list(ri)))
+                    return o.play(actions=cur, num_reps=reps, t_init=t0, out=out, tie_breaking=tb, random_state=Rec(7, ri=list(ri)))
+                insn = snap(cur)
+                r = call(obj, bufs if (use_out and not use_ts) else None)
+                fresh = call(mk())
+                if snap([np.asarray(a) for a in r]) != snap([np.asarray(a) for a in fresh]):
+                    ctx.spec_fail("fp_history", "the same call on a fresh object gives a different answer: the answer depends "
+                                  "on the object's history", replay)
+                if snap(cur) != insn:
+                    ctx.spec_fail("fp_input_modified", "the `actions` argument was modified", replay)
+                if use_out and not use_ts:
+                    ctx.count("history:fp-out-buffers-reused")
+                    if not all(a is b for a, b in zip(r, bufs)):
+                        ctx.spec_fail("fp_history", "play(out=...) did not return the given buffers", replay)
+                    r = tuple(np.array(a) for a in r)        # documented in-place: keep a copy, not the buffer
+                if any(shares(a, list(cur)) for a in _arrays(r)):
+                    ctx.spec_fail("fp_alias", "a returned array shares memory with the `actions` argument", replay)
+                _keep(ctx, kept, r, "fp_history", replay)
+                cur = tuple(np.array(a[-1] if use_ts else a) for a in r)
+        else:
+            # two LogitDynamics objects built on the SAME NormalFormGame with different beta, used alternately;
+            # each answer is judged with tables computed here from (payoffs, that object's beta)
+            n = rng.randint(2, 3)
+            A = rand_payoff(rng, n, kind=rng.choice([0, 2, 4]))
+            g = NormalFormGame(A)
+            betas = rng.sample([0.0, 0.5, 1.0, 2.0, 8.0], 2)
+            lds = [LogitDynamics(g, beta=betas[0])]
+            acts = [rng.randrange(n), rng.randrange(n)]
+            for step in range(rng.randint(3, 6)):
+                if step == 1:
+                    lds.append(LogitDynamics(g, beta=betas[1]))
+                    ctx.count("history:second-LogitDynamics-on-the-same-game")
+                w = rng.randrange(len(lds))
+                ld, beta = lds[w], betas[w]
+                seq = [rng.randrange(2) for _ in range(rng.randint(1, 5))]
+                us = [rng.choice([rng.random(), 0.0, UMAX]) for _ in seq]
+                r = ld.play(init_actions=tuple(acts), player_ind_seq=seq, random_state=Rec(3, us=list(us)))
+                got = [int(v) for v in r]
+                cur = list(acts)
+                for p_, u in zip(seq, us):
+                    pay = np.asarray(A, dtype=float)           # symmetric 2-player game: both players have A
+                    row = pay[:, cur[1 - p_]]
+                    cdf = np.exp((row - row.max()) * beta).cumsum()
+                    cur[p_] = int(np.searchsorted(cdf, u * cdf[-1], side="right"))
+                replay = {"op": "logit-history", "A": A, "betas": betas, "object": w, "actions": acts,
+                          "player_ind_seq": seq, "uniforms": us, "step": step}
+                if got != cur:
+                    if len(lds) == 2 and betas[0] != betas[1]:
+                        finding(ctx, "logit_shared_player_cdfs", "LogitDynamics stores its choice cdfs on the game's Player "
+                                "objects: after LogitDynamics(g, beta=%r) was built on the same game, the object built with "
+                                "beta=%r plays %s instead of %s" % (betas[1 - w], beta, got, cur), replay)
+                    else:
+                        ctx.spec_fail("logit_history_transition", "play() = %s, the inverse-cdf definition with this object's "
+                                      "beta gives %s" % (got, cur), replay)
+                _keep(ctx, kept, got, "logit_history", replay)
+                acts = got
+
+
+def _timed(ctx, name, f, *a):
+    t0 = time.time()
+    f(*a)
+    ctx.extra.setdefault("family_wall_s", {})[name] = round(time.time() - t0, 2)
+
+
 def run(ctx):
     cases = []
     ctx.rule = ("random small games (payoff matrices <=4x4 with integer entries: coordination, 0/1, symmetric, constant, "
@@ -1279,15 +1765,16 @@ def run(ctx):
         ctx.count("sbrd:N=1-runs(observation)")
     except Exception as e:
         ctx.count("sbrd:N=1-raises-%s(observation)" % type(e).__name__)
-    brd_exhaustive(ctx, cases)
-    brd_exhaustive_paths(ctx, cases)
-    brd_family(ctx, cases, ctx.n(150, 4000))
-    brd_play_direct(ctx, cases, ctx.n(90, 2000))
-    fp_family(ctx, cases, ctx.n(60, 1500))
-    fpn_family(ctx, cases, ctx.n(50, 1000))
-    li_family(ctx, cases, ctx.n(100, 3000))
-    logit_family(ctx, cases, ctx.n(80, 2000))
-    determinism_family(ctx, ctx.n(6, 40))
+    _timed(ctx, "brd_exhaustive", brd_exhaustive, ctx, cases)
+    _timed(ctx, "brd_exhaustive_paths", brd_exhaustive_paths, ctx, cases)
+    _timed(ctx, "brd_family", brd_family, ctx, cases, ctx.n(150, 4000))
+    _timed(ctx, "brd_play_direct", brd_play_direct, ctx, cases, ctx.n(90, 2000))
+    _timed(ctx, "fp_family", fp_family, ctx, cases, ctx.n(60, 1500))
+    _timed(ctx, "fpn_family", fpn_family, ctx, cases, ctx.n(50, 1000))
+    _timed(ctx, "li_family", li_family, ctx, cases, ctx.n(100, 3000))
+    _timed(ctx, "logit_family", logit_family, ctx, cases, ctx.n(80, 2000))
+    _timed(ctx, "determinism_family", determinism_family, ctx, ctx.n(6, 40))
+    _timed(ctx, "history_family", history_family, ctx, cases, ctx.n(60, 600))
     ctx.extra["exhaustive_scope"] = ("one BRD period: all 2x2 payoff matrices over {0,1,2}, N in %s, every initial "
                                      "condition, every revising player (smallest tie-breaking); BRD paths: 6 fixed games, every initial "
                                      "condition, every sequence of revising players of length %d for N in %s; everything else sampled"
